@@ -15,7 +15,7 @@ for src in sys.argv[1:]:
                 sibling.setdefault(k.strip(), {})[other.strip()] = r.strip()[:200]
             else:
                 matrix[k] = r.strip()
-rows = {1: [], 2: [], 3: []}
+rows = {1: [], 2: [], 3: [], 4: []}
 for d in sorted(os.listdir(os.path.join(V, "seeded"))):
     mp = os.path.join(V, "seeded", d, "meta.json")
     if not os.path.exists(mp):
@@ -46,7 +46,7 @@ for d in sorted(os.listdir(os.path.join(V, "seeded"))):
     first = (m.get("needs_to_manifest") or "").strip().split("\n")
     desc = " ".join(x.strip() for x in first[:3])[:150].replace("|", "/")
     rows[m.get("round", 1)].append(f"| {d} | {', '.join(files)} | {desc} | {mark} |")
-for rnd in (1, 2, 3):
+for rnd in (1, 2, 3, 4):
     if rows[rnd]:
         print(f"\nRound {rnd}:\n")
         print("| seed | file(s) changed | from the author's notes | owning check (quick) |\n|---|---|---|---|")
